@@ -274,6 +274,9 @@ def grid_caret(P='parsed'):
             out.append(clause(c, 'shape_ok_c(r, npm_caret_c(%s))' % P, 'caret#N'))
         elif s in ('M', 'M.m'):
             out.append(clause(c + ' && pM(%s) == 0' % P, 'shape_ok_c(r, npm_caret_c(%s))' % P, 'caret#0:' + s))
+            if s == 'M':
+                # `^0` is a known finding (no `>=0.0.0`); this clause pins what the code does instead, so that any *further* deviation is still reported
+                out.append(clause(c + ' && pM(%s) == 0' % P, 'shape_ok_c(r, npm_caret_c(%s)) || shape_ok_c(r, CSet::One(lt(k4(1, 0, 0, pre0()))))' % P, 'caret#0:M#npm-or-pinned'))
             out.append(clause(c + ' && pM(%s) != 0' % P, 'shape_ok_c(r, npm_caret_c(%s))' % P, 'caret#+:' + s))
         else:
             out.append(clause(c + ' && pM(%s) == 0 && pm(%s) == 0' % (P, P), 'shape_ok_c(r, npm_caret_c(%s))' % P, 'caret#0.0:' + s))
@@ -299,6 +302,9 @@ def grid_primitive(op, P='parsed'):
         # `<=1` / `<=1.2` are written as `<=1.MAX.MAX` / `<=1.2.MAX` (pinned by the suite): same admitted versions, stated as such
         post = 'shape_equiv_c' if (op == 'LessThanEquals' and s in ('M', 'M.m')) else 'shape_ok_c'
         out.append(clause(c.format(p=P + '.1'), post + '(r, npm_primitive_c(%s.0, %s.1))' % (P, P), 'primitive#' + op + ':' + s))
+        if op == 'LessThan' and s == 'M':
+            # `<M` is a known finding (`<M.0.0` instead of `<M.0.0-0`); pinned so that any further deviation is still reported
+            out.append(clause(c.format(p=P + '.1'), 'shape_ok_c(r, npm_primitive_c(%s.0, %s.1)) || shape_ok_c(r, CSet::One(lt(k3(pM(%s.1), 0, 0))))' % (P, P, P), 'primitive#LessThan:M#npm-or-pinned'))
     return out
 
 
